@@ -65,6 +65,17 @@ func (c09) Gen(rng *simrt.Rand, seed uint64, tier string) *Case {
 	ncols := rng.Intn(3)
 	adversarial := rng.Bool(0.5)
 	tuples := genKeyTuples(rng, ncols, adversarial)
+	if ncols >= 1 && rng.Bool(0.12) {
+		// the same text as a number and as a string: whether these are one key or two is the
+		// engine's choice (Run judges both readings), but it has to make it consistently
+		tw := [][]any{{7, "7"}, {true, "true"}, {2.5, "2.5"}}[rng.Intn(3)]
+		tuples = [][]any{make([]any, ncols), make([]any, ncols)}
+		for i := 0; i < ncols; i++ {
+			tuples[0][i], tuples[1][i] = "z", "z"
+		}
+		tuples[0][0], tuples[1][0] = tw[0], tw[1]
+		c.X["typed_twins"] = true
+	}
 	keyCols := []string{"k1", "k2"}[:ncols]
 	maxRows := 60
 	if tier == "thorough" {
@@ -133,6 +144,11 @@ func (c09) Gen(rng *simrt.Rand, seed uint64, tier string) *Case {
 		perf.Strategy = "drop"
 		perf.DataChan = id + 8
 		perf.WindowOut = id + 8
+		if rng.Bool(0.4) {
+			// tiny window buffers without back-pressure on the input: results may be dropped at
+			// the window output (counted); rows handed to the window must not be
+			perf.WindowOut = 1 + rng.Intn(4)
+		}
 	}
 	sink := SinkSpec{Mode: "sync"}
 	if rng.Bool(0.4) {
@@ -189,84 +205,142 @@ func (c09) Run(e *Env) {
 		}
 		prev = len(in.Deliveries)
 	}
-	if st["input_dropped_count"] > 0 || windowDropped(st) > 0 {
+	if st["input_dropped_count"] > 0 {
 		e.R.Discard = fmt.Sprintf("overflow drop (input_dropped=%d window dropped=%d): not judged", st["input_dropped_count"], windowDropped(st))
 		e.Probe("discard_overflow")
 		return
 	}
-	// reference: per key tuple, ids in emit order
-	byID := map[string]map[string]any{}
-	perKey := map[string][]string{}
-	keyOf := map[string][]any{}
+	// Under the drop strategy the window's output hand-off is lossy by design: when the output
+	// buffer is full it evicts the oldest pending result (not counted) or drops the new one
+	// (counted) — whole results either way. The i-th delivered result of a key is then no longer
+	// its i-th batch, but it still has to be one of the key's batches and later than the
+	// previous one; completeness is only demanded when the buffer cannot overflow.
+	dropped := int(windowDropped(st))
+	lossy := dropped > 0 || (in.Spec.Perf.Strategy == "drop" && in.Spec.Perf.WindowOut < len(e.C.Clients[0]))
+	if lossy {
+		e.Probe("lossy_window_output")
+	}
+	type viol struct{ class, msg string }
 	var keyOrder []string
-	for _, op := range e.C.Clients[0] {
-		if op.K != "emit" {
-			continue
-		}
-		id := op.Row["id"].(string)
-		byID[id] = op.Row
-		ks := keyString(rowKeys(op.Row, keyCols))
-		if _, ok := perKey[ks]; !ok {
-			keyOrder = append(keyOrder, ks)
-			keyOf[ks] = rowKeys(op.Row, keyCols)
-		}
-		perKey[ks] = append(perKey[ks], id)
-	}
-	got := map[string]int{} // results delivered so far per key
-	seenID := map[string]bool{}
-	for _, d := range in.Deliveries {
-		for _, row := range d.Rows {
-			r, err := parseWinResult(d, row, keyCols)
-			if err != nil {
-				e.Violate("C09/malformed-result", "", "%v", err)
+	byID := map[string]map[string]any{}
+	// judge under one notion of key identity; which of 7 and '7' (same text, different type) are
+	// one grouping key is not fixed by the property, so a run is in violation only if it is
+	// wrong under both readings
+	judge := func(ident func([]any) string) []viol {
+		var out []viol
+		add := func(class, f string, a ...any) { out = append(out, viol{class, fmt.Sprintf(f, a...)}) }
+		perKey := map[string][]string{}
+		keyOrder = nil
+		for _, op := range e.C.Clients[0] {
+			if op.K != "emit" {
 				continue
 			}
-			e.Oblig(1)
-			ks := keyString(r.Keys)
-			ref, ok := perKey[ks]
-			if !ok {
-				e.Violate("C09/unknown-key", "", "result reports group %s which no emitted row has; result=%s", ks, canon(row))
-				continue
+			id := op.Row["id"].(string)
+			byID[id] = op.Row
+			ks := ident(rowKeys(op.Row, keyCols))
+			if _, ok := perKey[ks]; !ok {
+				keyOrder = append(keyOrder, ks)
 			}
-			i := got[ks]
-			got[ks]++
-			if len(r.IDs) != N {
-				e.Violate("C09/batch-size", "", "key %s result #%d has %d rows (ids %v), N=%d", ks, i+1, len(r.IDs), r.IDs, N)
-			}
-			for _, id := range r.IDs {
-				if seenID[id] {
-					e.Violate("C09/row-in-two-results", "", "row %s contributes to two results", id)
+			perKey[ks] = append(perKey[ks], id)
+		}
+		next := map[string]int{} // index of the next batch not yet seen, per key
+		got := map[string]int{}
+		seenID := map[string]bool{}
+		for _, d := range in.Deliveries {
+			for _, row := range d.Rows {
+				r, err := parseWinResult(d, row, keyCols)
+				if err != nil {
+					add("C09/malformed-result", "%v", err)
+					continue
 				}
-				seenID[id] = true
-				if rr := byID[id]; rr != nil && keyString(rowKeys(rr, keyCols)) != ks {
-					e.Violate("C09/foreign-row", "", "result for key %s contains row %s of key %s", ks, id, keyString(rowKeys(rr, keyCols)))
+				ks := ident(r.Keys)
+				ref, ok := perKey[ks]
+				if !ok {
+					add("C09/unknown-key", "result reports group %s which no emitted row has; result=%s", ks, canon(row))
+					continue
+				}
+				got[ks]++
+				if len(r.IDs) != N {
+					add("C09/batch-size", "key %s result #%d has %d rows (ids %v), N=%d", ks, got[ks], len(r.IDs), r.IDs, N)
+				}
+				for _, id := range r.IDs {
+					if seenID[id] {
+						add("C09/row-in-two-results", "row %s contributes to two results", id)
+					}
+					seenID[id] = true
+					if rr := byID[id]; rr != nil && ident(rowKeys(rr, keyCols)) != ks {
+						add("C09/foreign-row", "result for key %s contains row %s of key %s", ks, id, ident(rowKeys(rr, keyCols)))
+					}
+				}
+				i := next[ks]
+				match := -1
+				for j := i; (j+1)*N <= len(ref); j++ {
+					if fmt.Sprint(r.IDs) == fmt.Sprint(ref[j*N:(j+1)*N]) {
+						match = j
+						break
+					}
+					if !lossy {
+						break // without drops it has to be the very next batch
+					}
+				}
+				switch {
+				case (i+1)*N > len(ref):
+					add("C09/extra-result", "key %s has %d rows but a result #%d was delivered (ids %v)", ks, len(ref), got[ks], r.IDs)
+				case match < 0:
+					add("C09/wrong-rows", "key %s result #%d has ids %v, expected rows %d..%d = %v%s", ks, got[ks], r.IDs, i*N+1, (i+1)*N, ref[i*N:(i+1)*N],
+						map[bool]string{true: " or a later batch of that key (the window output may drop whole results)", false: ""}[lossy])
+				default:
+					next[ks] = match + 1
+				}
+				if msg := checkAggs(r, byID); msg != "" {
+					add("C09/aggregate-mismatch", "key %s result #%d: %s", ks, got[ks], msg)
 				}
 			}
-			lo, hi := i*N, (i+1)*N
-			if hi > len(ref) {
-				e.Violate("C09/extra-result", "", "key %s has %d rows but a result #%d was delivered (ids %v)", ks, len(ref), i+1, r.IDs)
-			} else if fmt.Sprint(r.IDs) != fmt.Sprint(ref[lo:hi]) {
-				e.Violate("C09/wrong-rows", "", "key %s result #%d has ids %v, expected rows %d..%d = %v", ks, i+1, r.IDs, lo+1, hi, ref[lo:hi])
+		}
+		missing := 0
+		for _, ks := range keyOrder {
+			want := len(perKey[ks]) / N
+			if got[ks] < want {
+				missing += want - got[ks]
+				if !lossy {
+					add("C09/missing-batch", "key %s: %d rows emitted, N=%d: expected %d results at quiescence, got %d", ks, len(perKey[ks]), N, want, got[ks])
+				}
 			}
-			if msg := checkAggs(r, byID); msg != "" {
-				e.Violate("C09/aggregate-mismatch", "", "key %s result #%d: %s", ks, i+1, msg)
+			if len(perKey[ks])%N != 0 {
+				e.Probe("trailing_remainder")
 			}
+			if len(perKey[ks]) > 0 && len(perKey[ks])%N == 0 {
+				e.Probe("exact_multiple")
+			}
+		}
+		_ = missing
+		e.R.Summary = map[string]any{"N": N, "keys": len(keyOrder), "rows": len(byID), "results": len(seenID) / max(1, N), "strategy": in.Spec.Perf.Strategy, "dropped_results": dropped}
+		return out
+	}
+	typed := func(k []any) string { return keyString(k) }
+	loose := func(k []any) string { // same text = same key, whatever the type; NULL stays apart
+		parts := make([]string, len(k))
+		for i, v := range k {
+			if v == nil {
+				parts[i] = "\x00null"
+			} else {
+				parts[i] = fmt.Sprint(v)
+			}
+		}
+		return canon(parts)
+	}
+	vs := judge(typed)
+	e.Oblig(len(in.Deliveries))
+	if len(vs) > 0 && e.C.xBool("typed_twins") {
+		e.Probe("typed_twin_keys_judged_both_ways")
+		if vl := judge(loose); len(vl) == 0 {
+			vs = nil
 		}
 	}
-	for _, ks := range keyOrder {
-		want := len(perKey[ks]) / N
-		if got[ks] < want {
-			e.Violate("C09/missing-batch", "", "key %s: %d rows emitted, N=%d: expected %d results at quiescence, got %d", ks, len(perKey[ks]), N, want, got[ks])
-		}
-		if len(perKey[ks])%N != 0 {
-			e.Probe("trailing_remainder")
-		}
-		if len(perKey[ks]) > 0 && len(perKey[ks])%N == 0 {
-			e.Probe("exact_multiple")
-		}
+	for _, v := range vs {
+		e.Violate(v.class, "", "%s", v.msg)
 	}
 	if len(keyOrder) > 1 {
 		e.Probe("multi_key")
 	}
-	e.R.Summary = map[string]any{"N": N, "keys": len(keyOrder), "rows": len(byID), "results": len(seenID) / max(1, N), "strategy": in.Spec.Perf.Strategy}
 }
